@@ -228,14 +228,20 @@ def run(chk):
                 sc = gen_scenario(rng)
                 while not (sc["niter"] >= 2 and sc["crits"]):
                     sc = gen_scenario(rng)
-            interrupt_prior = rng.choice([0, 1, 2]) if i else 1
+            # file 0 follows an interrupted session, file 1 is written by one session (so that the records of every
+            # run and benchmark lie in the appended part), the others vary
+            interrupt_prior = 1 if i == 0 else 0 if i == 1 else rng.choice([0, 1, 2])
             data_file, file0, file1, serial, snaps, ses = record(sc, rng, d, interrupt_prior)
             if isinstance(ses.result, str):
                 chk.violation("C09 a recording session ends without an exception", dict(config=sc["raw"]), "no exception", ses.result)
                 continue
             chk.count("file_bytes", len(file1))
             step = 1 if chk.tier == "thorough" or len(file1) - len(file0) < 2500 else 2
-            for k in range(len(file0), len(file1) + 1, step):
+            cuts = set(range(len(file0), len(file1) + 1, step))
+            for pos in range(len(file0), len(file1)):          # always: the bytes around every line end
+                if file1[pos:pos + 1] == b"\n":
+                    cuts.update(q for q in (pos - 1, pos, pos + 1, pos + 2) if len(file0) <= q <= len(file1))
+            for k in sorted(cuts):
                 check_cut(chk, sc, data_file, file0, file1, k, serial, exprs)
                 ncuts += 1
                 chk.case(("cut", i, k), sample=dict(file_bytes=len(file1), first_cut=len(file0), iterations=sc["niter"],
